@@ -122,6 +122,8 @@ def _dispatch_decisions(tree, raise_node, exc_name):
     while cur in parents:
         par, field = parents[cur]
         if isinstance(par, ast.Try) and field == 'body':
+            if par.handlers and par.handlers[0].type is None:
+                return out          # a bare `except:` first: it runs, no decision is consumed
             idx = None
             for i, h in enumerate(par.handlers):
                 t = h.type
@@ -146,6 +148,8 @@ def semantic_cases(mod, sem_inputs, rnd, nvec):
     out, meta = [], []
     stats = {'runs_ending_in_exception': 0, 'runs_with_handler_dispatch': 0}
     for idx, src, fn, atoms in sem_inputs:
+        if fn.__code__.co_argcount != 3:
+            continue       # programs with the mutable arguments m / o: structural tie only
         tree = ast.parse(src)
         raises = {n.lineno: n for n in ast.walk(tree) if isinstance(n, ast.Raise)}
         first = fn.__code__.co_firstlineno
@@ -258,7 +262,11 @@ def lowering_tie(run, rnd, quick):
     opts2 = progs.Opts(reads='none', nested_def=False, max_stmts=14, loop_else=False, tuple_assign=False, except_as=False)
     opts3 = progs.Opts(reads='none', nested_def=False, max_stmts=12, loop_else=False, tuple_assign=False, except_as=False,
                        only={'if', 'try', 'return', 'raise', 'expr', 'while', 'with', 'for', 'break', 'continue'})
-    srcs = [progs.gen_function(rnd, rnd.choice([opts1, opts2, opts2, opts3])) for _ in range(n)]
+    # return values that raise while being evaluated (odd labels of the model), bare except clauses
+    opts4 = progs.Opts(reads='none', nested_def=False, max_stmts=12, loop_else=False, tuple_assign=False, except_as=False, mutation=True,
+                       raising_return=True, append=False,
+                       only={'if', 'try', 'return', 'retattr', 'raise', 'expr', 'while', 'for', 'break', 'continue'})
+    srcs = [progs.gen_function(rnd, rnd.choice([opts1, opts2, opts2, opts3, opts4])) for _ in range(n)]
     cases = []
     meta = []
     sem_inputs = []
